@@ -2618,7 +2618,7 @@ where
                     self.clear_store_related();
                 }
                 packet.props().iter().for_each(|prop| match prop {
-                    Property::TopicAliasMaximum(p) => {
+                    Property::TopicAliasMaximum(p) if p.val() != 0 => {
                         self.topic_alias_send = Some(TopicAliasSend::new(p.val()));
                     }
                     Property::ReceiveMaximum(p) => {
